@@ -460,7 +460,22 @@ func (fx *Fx) globalLoc(g *ssa.Global) *Loc {
 
 // ---- maps ----
 
+// mapKey: the SMT term a key value is stored under. Interface keys are the pair (dynamic type, payload)
+// folded by the injective function ikey; basic values are boxed under canonical payloads (see
+// makeInterface), so that equal keys in the sense of Go have equal terms.
+func mapKey(k Val) string {
+	if len(k.L) == 2 && k.T != nil {
+		if _, ok := k.T.Underlying().(*types.Interface); ok {
+			return "(ikey " + k.L[0] + " " + k.L[1] + ")"
+		}
+	}
+	return k.L[0]
+}
+
 func mapKeySort(m *types.Map) string {
+	if _, ok := m.Key().Underlying().(*types.Interface); ok {
+		return "Int"
+	}
 	ls := leaves(m.Key())
 	if len(ls) != 1 {
 		unsupported("map key type %s", m.Key())
@@ -486,16 +501,16 @@ func (fx *Fx) mapComps(mt types.Type) (has string, vals []string, ls []Leaf) {
 
 func (fx *Fx) mapHas(st *State, m, k Val) string {
 	has, _, _ := fx.mapComps(m.T)
-	return and(not(eq(m.L[0], "0")), sel(sel(st.get(fx, has), m.L[0]), k.L[0]))
+	return and(not(eq(m.L[0], "0")), sel(sel(st.get(fx, has), m.L[0]), mapKey(k)))
 }
 
 func (fx *Fx) mapLoad(st *State, m, k Val) Val {
 	mt := m.T.Underlying().(*types.Map)
 	has, vals, ls := fx.mapComps(m.T)
-	h := and(not(eq(m.L[0], "0")), sel(sel(st.get(fx, has), m.L[0]), k.L[0]))
+	h := and(not(eq(m.L[0], "0")), sel(sel(st.get(fx, has), m.L[0]), mapKey(k)))
 	v := Val{T: mt.Elem(), L: make([]string, len(ls))}
 	for i, c := range vals {
-		t := ite(h, sel(sel(st.get(fx, c), m.L[0]), k.L[0]), ls[i].Zero)
+		t := ite(h, sel(sel(st.get(fx, c), m.L[0]), mapKey(k)), ls[i].Zero)
 		t = fx.name(t, ls[i].Sort, "ml")
 		v.L[i] = t
 		fx.typeFacts(st, t, ls[i])
